@@ -46,7 +46,12 @@ def run(chk, replay=None):
             blocks = gen_progs.block_programs(chk.seed * 10 + 5, n_block, cj, start_id=len(progs) + 1)
             for b in blocks:
                 b["cfg"] = cfg
-            pairs = harness_pairs(chk, progs + blocks, flavour)
+            # systematic loop nests with exits (every combination; quick: every other one per flavour)
+            nests = gen_progs.loopnest_programs(cfg, start_id=100001)
+            if quick:
+                nests = nests[(0 if flavour == "ne" else 1)::2]
+            chk.add("loopnest_programs", len(nests))
+            pairs = harness_pairs(chk, progs + blocks + nests, flavour)
         chk.add("programs", len(pairs))
         chk.add("disagreements_checked", sum(1 for p in pairs if p.get("changed")))
         cov = lib.product_check(chk, "ProductDecomp", tcfg, pairs, "c07_" + flavour, timeout=900 if quick else 3000)
